@@ -13,6 +13,11 @@ CLAIMS = {
         note="Decides structural clauses R17.x only (necessary conditions), not the event-level behaviour over all histories. "
              "Trusted base: rustc nightly MIR + Instance resolution, smolfacts serialisation, sa/ Python core.",
         technique="static analysis: finite-domain abstract interpretation + who-may-write + guard must-pass-through over rustc MIR"),
+    'C11': dict(
+        text="Guard must-pass-through (edge cut on the MIR CFG, guards recognised by resolved callee + origin leaf sets + polarity) for: the Ethernet/802.15.4 destination filters, the IPv4/IPv6 destination and source filters in front of every upper-layer handler, accepts() before every socket process() (call sites enumerated over all iface code), unicast source/destination guards in front of every ICMP error and TCP RST construction, no RST in reply to RST, ICMP auto-replies only to echo requests.",
+        design_ref="DESIGN.md §3 C11",
+        note="Decides structural clauses R11.x only. The full address-class x protocol table and the loopback-from-network clause are not decided. Two ICMPv6 cases are listed in known_findings.json.",
+        technique="static analysis: guard-dominance / must-pass-through over rustc MIR with origin-tree guard signatures"),
 }
 
 NOT_YET = "structural rules for this property are not built yet in this revision; no static claim is made"
